@@ -5,16 +5,14 @@ EXTENDS Naturals, Integers, Sequences, FiniteSets, TLC, Json, IOUtils
 \* The recorded trace (one JSON object per line), path in env var TRACE.
 TraceLog == ndJsonDeserialize(IOEnv.TRACE)
 
-\* Append one JSON line to the scenario file named by env var OUT (used from an INVARIANT / action, -workers 1).
-EmitScenario(rec) ==
-    Serialize(<<rec>>, IOEnv.OUT,
-              [format |-> "NDJSON", charset |-> "UTF-8",
-               openOptions |-> <<"WRITE", "CREATE", "APPEND">>])
+\* Emit one scenario as a JSON line.  Serialize() costs ~12 ms per call (it reopens the file), so scenarios are
+\* printed on TLC's standard output instead and collected by bin/vlib.py:   <<"SCN", "<json>">>
+EmitScenario(rec) == PrintT(<<"SCN", ToJson(rec)>>)
 
 Range(f) == {f[x] : x \in DOMAIN f}
 InSeq(s, e) == \E i \in DOMAIN s : s[i] = e
 HasKey(r, k) == k \in DOMAIN r
 
-\* Verdict lines parsed by bin/check:  <<"VERDICT", kind, line, scenario, what>>
-Verdict(kind, l, sc, what) == PrintT(<<"VERDICT", kind, l, sc, what>>)
+\* Verdict lines parsed by bin/check (one line each):  "VERDICT|kind|line|scenario|what"
+Verdict(kind, l, sc, what) == PrintT("VERDICT|" \o kind \o "|" \o ToString(l) \o "|" \o ToString(sc) \o "|" \o ToString(what))
 =============================================================================
